@@ -240,6 +240,29 @@ Proof.
     + now rewrite set_nth_other.
 Qed.
 
+(* facts that survive a write to the dict of an instance cell *)
+Definition istable (F : heap_t -> Prop) : Prop :=
+  forall h l cl d d', nth_error h l = Some (OInst cl d) -> F h -> F (set_nth l (OInst cl d') h).
+
+Definition xstable (F : heap_t -> Prop) : Prop := cstable F /\ istable F.
+
+Lemma xstable_true : xstable (fun _ => True).
+Proof. split; [apply cstable_true|intros h l cl d d' _ _; exact I]. Qed.
+
+Lemma xstable_and F G : xstable F -> xstable G -> xstable (fun h => F h /\ G h).
+Proof.
+  intros [C1 I1] [C2 I2]. split; [now apply cstable_and|].
+  intros h l cl d d' N [H1 H2]. split; eauto.
+Qed.
+
+(* what the stores need from invalidate_attrs: it preserves the invariant and every frame
+   that survives allocations, container writes that add no reference and instance-dict
+   writes; also when it fails *)
+Definition inval_spec (ct : ctable) : Prop :=
+  forall fuel l a (F : heap_t -> Prop), xstable F ->
+    T (fun h => Inv ct h /\ F h) (invalidate_attrs ct (exec ct fuel) l a)
+      (fun _ h => Inv ct h /\ F h) (fun h => Inv ct h /\ F h).
+
 Section Quiet.
   Variable ct : ctable.
   Hypothesis Hflat : flat_table ct.
@@ -488,7 +511,7 @@ Proof. unfold truthy_collection. destruct v; hpgo. Qed.
 Section Lists.
   Variable ct : ctable.
   Hypothesis Hflat : flat_table ct.
-  Hypothesis Hninv : no_inval_table ct.
+  Hypothesis Hninv : inval_spec ct.
   Variable rec : call -> M val.
   Hypothesis Hrec_mv : forall m F, astable F -> mv_plain m ->
     T (IF ct F) (rec (KMutateValue m)) (fun r h => IF ct F h /\ mv_res m r h) (IF ct F).
@@ -722,12 +745,10 @@ End Lists.
 
 (* ------------------------------------------------------------------ *)
 (** * mutate_attr in place, assignment *)
-Section Store.
+Section StoreNoInval.
   Variable ct : ctable.
-  Hypothesis Hflat : flat_table ct.
   Hypothesis Hninv : no_inval_table ct.
   Variable rec : call -> M val.
-  Notation Inv := (Inv ct).
 
   Lemma filter_inv_nil (l : list attr_spec) x :
     (forall sp, In sp l -> a_inv_by sp = []) ->
@@ -758,6 +779,25 @@ Section Store.
       now rewrite Nat.eqb_refl. }
     rewrite B. apply T_ret. auto.
   Qed.
+
+
+  (* tables without invalidated_by satisfy the specification of invalidate_attrs *)
+  Lemma inval_spec_noop : (forall rec0 : call -> M val, rec0 = rec0) -> True.
+  Proof. auto. Qed.
+End StoreNoInval.
+
+Lemma no_inval_spec ct : no_inval_table ct -> inval_spec ct.
+Proof.
+  intros H fuel l a F _. apply (invalidate_noop ct H (exec ct fuel) (fun h => Inv ct h /\ F h)). auto.
+Qed.
+
+Section Store.
+  Variable ct : ctable.
+  Hypothesis Hflat : flat_table ct.
+  Hypothesis Hninv : inval_spec ct.
+  Variable fuel0 : nat.
+  Notation rec := (exec ct fuel0).
+  Notation Inv := (Inv ct).
 
   Lemma T_thawed_false {A} (P : heap_t -> Prop) l (m : M A) (Q : A -> heap_t -> Prop) (E : heap_t -> Prop) :
     (forall h, P h -> E h) -> T P m Q E -> T P (thawed ct l false m) Q E.
@@ -828,7 +868,7 @@ Section Store.
     eapply T_bind with (Q := fun _ h => Inv h); [|intros ?; apply T_ret; auto].
     apply T_thawed_false; [tauto|].
     eapply T_bind; [apply raw_setattr_Inv|]. intros ?.
-    apply invalidate_noop. auto.
+    eapply T_conseq; [apply (Hninv fuel0 l a (fun _ => True) xstable_true)| | |]; cbv beta; intros; tauto.
   Qed.
 End Store.
 
@@ -857,7 +897,7 @@ Qed.
 Section Ops.
   Variable ct : ctable.
   Hypothesis Hflat : flat_table ct.
-  Hypothesis Hninv : no_inval_table ct.
+  Hypothesis Hninv : inval_spec ct.
   Notation Inv := (Inv ct).
 
   (* attribute a of the instance at l, if it is managed, is a leaf list attribute *)
@@ -873,11 +913,11 @@ Section Ops.
   Proof. intro H. split; auto. Qed.
 
   (* obj.a = v, after the value has been prepared: shared by assignment and with_<a> *)
-  Lemma prepare_then_store rec' fuel l a sp e v :
+  Lemma prepare_then_store fuel' fuel l a sp e v :
     leaf_list sp e ->
     T (fun h => Inv h /\ loose h v)
       (value <- prepare_attr_value ct (exec ct fuel) sp l v None ;;
-       mutate_attr ct rec' l a value true true false false)
+       mutate_attr ct (exec ct fuel') l a value true true false false)
       (fun _ h => Inv h) Inv.
   Proof.
     intro Hl. eapply T_bind.
@@ -885,7 +925,7 @@ Section Ops.
       + intros h [I L]. split; [apply IF_true; exact I|exact L].
       + intros r h H. exact H.
       + intros h [I _]. exact I.
-    - intros value. eapply T_pre; [|apply (mutate_attr_inplace ct Hflat Hninv rec' l a value true)].
+    - intros value. eapply T_pre; [|apply (mutate_attr_inplace ct Hflat Hninv fuel' l a value true)].
       intros h [[I _] L]. split; auto. split; [left; exact L|discriminate].
   Qed.
 
@@ -899,9 +939,9 @@ Section Ops.
     intros s [[[I [L R]] N] Hk].
     destruct (lookup_attr k a) as [sp|] eqn:Ha.
     - destruct (R _ _ _ _ N Hk Ha) as [e Hl].
-      apply (prepare_then_store (exec ct fuel) fuel l a sp e v Hl s). auto.
+      apply (prepare_then_store fuel fuel l a sp e v Hl s). auto.
     - rewrite bind_ret_l.
-      apply (mutate_attr_inplace ct Hflat Hninv (exec ct fuel) l a v true s).
+      apply (mutate_attr_inplace ct Hflat Hninv fuel l a v true s).
       split; auto. split; [left; exact L|discriminate].
   Qed.
 
@@ -949,7 +989,7 @@ Section Ops.
       destruct (lookup_attr k a) as [sp|] eqn:Ha; simpl; auto.
       split; auto. split; [eapply lookup_attr_name; eauto|eauto]. }
     intros r. apply T_pull. intros [Hn [e Hl]]. unfold with_attr. rewrite Hn.
-    apply (prepare_then_store (exec ct XFUEL) XFUEL l a (snd r) e (pos0 hh) Hl).
+    apply (prepare_then_store XFUEL XFUEL l a (snd r) e (pos0 hh) Hl).
   Qed.
 End Ops.
 
@@ -1025,7 +1065,7 @@ Theorem step_preserves_owned_partial ct roots o s :
   TypeInv ct s -> Owned ct (heap s) ->
   TypeInv ct (snd (step ct roots o s)) /\ Owned ct (heap (snd (step ct roots o s))).
 Proof.
-  intros Hf Hn Hop T O. apply no_inval_b_sound in Hn.
+  intros Hf Hn Hop T O. apply no_inval_b_sound in Hn. apply no_inval_spec in Hn.
   assert (I : Inv ct (heap s)) by (split; auto).
   change (Inv ct (heap (snd (step ct roots o s)))).
   destruct o as [| x a v | | x hp hh | | ob]; simpl in Hop; try discriminate.
